@@ -20,11 +20,13 @@ TOPOS = {
     'shards': {'target': {'m1': 's1', 'm2': 's2'}, 'order': ['m1', 'm2'], 'shards': 2},
     'shards_swapped': {'target': {'m1': 's2', 'm2': 's1'}, 'order': ['m1', 'm2'], 'shards': 2},
 }
-SPID_RE = re.compile(rb'"spid": \d+')
+# the mock servers' result rows name the server connection that produced them: which of the pool's connections serves a
+# request is not part of the reply a real server would give
+SPID_RE = re.compile(rb'"(spid|conn)": \d+')
 
 
 def norm_reply(rep):
-    return [(t, SPID_RE.sub(b'"spid": 0', b).decode('latin1')) for t, b in rep.msgs] + [('end', rep.end)]
+    return [(t, SPID_RE.sub(b'"x": 0', b).decode('latin1')) for t, b in rep.msgs] + [('end', rep.end)]
 
 
 def short(t, body):
